@@ -37,8 +37,19 @@ def _env():
     from spec import printer_grammar as G
     from backends.libwayland_debug_output import parse
     Z = sre2smt.Z()
-    P = parse.WlPatterns()
-    return sre2smt, G, parse, Z, P
+    return sre2smt, G, parse, Z, _LazyPatterns(parse)
+
+
+class _LazyPatterns:
+    """the live pattern object, constructed only by the obligations that read regexes (the end-to-end obligations do not need it)"""
+
+    def __init__(self, parse):
+        self._parse, self._p = parse, None
+
+    def __getattr__(self, k):
+        if self._p is None:
+            self._p = self._parse.WlPatterns()
+        return getattr(self._p, k)
 
 
 def _res(status, Z, t0, **kw):
@@ -316,7 +327,7 @@ def run_generated(case):
     prods = G.arg_productions(dialect, False)
     n = 0
     samples = []
-    tricky = [', ', '(', ')', '[', ' -> ', '}', '  -> a#1.b(', '] a@1.b(', 'nil', 'new id ', '', '{x} <1>', ', "', '[0.1]  -> b@2.c(']
+    tricky = [', ', '(', ')', '[', ' -> ', '}', '  -> a#1.b(', '] a@1.b(', 'nil', 'new id ', '', '{x} <1>', ', "', '[0.1]  -> b@2.c(', '#', '@', 'bug #12 @home', ' <7> ', '<conn> ', ' {q} ']
     tricky = [t for t in tricky if '"' not in t or True]
     def strprod(i):
         t = tricky[i % len(tricky)].replace('"', "'")
